@@ -625,6 +625,55 @@ func c18Run(dir string, hist []int) (sig, msg string) {
 	return "", ""
 }
 
+// c18Scenarios: admission under interleavings: an unlisted client whose request is already in the socket when it is
+// accepted (its read event may be handled before the queued tasks run), next to a listed client.
+func c18Scenarios(tier string) []*world.Scenario {
+	b := 2
+	if tier == "thorough" {
+		b = 4
+	}
+	var out []*world.Scenario
+	for _, reqs := range [][]Req{{PingReq()}, {GetReq(keysA[0])}, {GetReq(keysA[0]), GetReq(keysB[0])}, {MGetReq(keysA[0], keysB[0])}} {
+		for _, order := range []int{0, 1} {
+			bad := ClientOf(reqs, true)
+			bad.IP = [4]byte{127, 0, 0, 2}
+			good := ClientOf([]Req{GetReq(keysC[0])}, true)
+			good.IP = [4]byte{127, 0, 0, 1}
+			sc := &world.Scenario{Nodes: T3m(), Bound: b, Horizon: 300, Family: "admission-interleavings", Whitelist: []string{"127.0.0.1"}}
+			if order == 0 {
+				sc.Clients = []world.ClientSpec{bad, good}
+			} else {
+				sc.Clients = []world.ClientSpec{good, bad}
+			}
+			bi := order
+			sc.Name = fmt.Sprintf("C18/e1/%s/unlisted-is-client%d/d%d", reqs[0].Kind, bi, b)
+			gk := keysC[0]
+			sc.Check = func(w *world.World) []world.Violation {
+				c := w.Clients[bi]
+				if len(c.Received) > 0 {
+					return []world.Violation{{Sig: "rejected-client-got-bytes", Msg: fmt.Sprintf("client from 127.0.0.2 (not listed) received %q", c.Received)}}
+				}
+				for _, rec := range w.DataCmds("") {
+					if !hasKey(rec.Args, gk) {
+						return []world.Violation{{Sig: "rejected-client-forwarded", Msg: fmt.Sprintf("a request of the unlisted client reached node %s: %q", rec.Addr, rec.Raw)}}
+					}
+				}
+				if !c.ProxyClosed && c.Accepted {
+					return []world.Violation{{Sig: "unlisted-address-admitted", Msg: "client from 127.0.0.2 was accepted and not closed"}}
+				}
+				g := w.Clients[1-bi]
+				rs, _, _ := world.SplitReplies(g.Received)
+				if len(rs) != 1 || g.ProxyClosed {
+					return []world.Violation{{Sig: "listed-address-rejected", Msg: fmt.Sprintf("listed client got %q closed=%v", g.Received, g.ProxyClosed)}}
+				}
+				return nil
+			}
+			out = append(out, sc)
+		}
+	}
+	return out
+}
+
 func c18Seq(tier string, shard, n int, deadline time.Time, res *Result) {
 	dir, err := os.MkdirTemp("", "verif-c18-")
 	if err != nil {
@@ -841,7 +890,7 @@ func init() {
 		Seq: c14Seq, Scenarios: c14E2EScenarios, BudgetQuick: 100, BudgetThorough: 1500,
 		Assumptions: []string{"'within a few seconds' = within two ticker rounds of virtual time", "the INFO probe of newly discovered nodes is answered by a stub; the health monitor is not run", "memory-model races between the refresh goroutine and the loop are outside the technique (the barrier orders them)"}})
 	register(&Check{ID: "C18", Level: "model_checking",
-		Rule: "every history of 1..2 (thorough 1..3) successive whitelist file contents out of the 16 states {enable on/off} x subsets of {127.0.0.1,.2,.3}; each content is written to a scratch file and loaded through the real parseAuthIp exactly as the watcher does; then four clients (three listed candidates + one foreign address) connect through the real accept path and pipeline two requests; oracle: admitted set = set in the final file (everyone when disabled), rejected clients are closed with zero bytes and nothing of theirs reaches a backend; plus the real fsnotify watcher (LoopIPWhiteList on a scratch directory) driven through 7 edits, in place and by rename, with a 5 s convergence window; states = histories, transitions = file loads",
-		Seq: c18Seq, BudgetQuick: 100, BudgetThorough: 1500,
+		Rule: "every history of 1..2 (thorough 1..3) successive whitelist file contents out of the 16 states {enable on/off} x subsets of {127.0.0.1,.2,.3}; each content is written to a scratch file and loaded through the real parseAuthIp exactly as the watcher does; then four clients (three listed candidates + one foreign address) connect through the real accept path and pipeline two requests; oracle: admitted set = set in the final file (everyone when disabled), rejected clients are closed with zero bytes and nothing of theirs reaches a backend; plus admission under every interleaving within the bound of an unlisted client whose request is already in its socket when it is accepted, next to a listed client; plus the real fsnotify watcher (LoopIPWhiteList on a scratch directory) driven through 7 edits, in place and by rename, with a 5 s convergence window; states = histories, transitions = file loads",
+		Seq: c18Seq, Scenarios: c18Scenarios, BudgetQuick: 100, BudgetThorough: 1500,
 		Assumptions: []string{"histories call the reload function directly (deterministic); the fsnotify path is exercised by one fixed 7-edit sequence in real time"}})
 }
